@@ -3,6 +3,7 @@
 package main
 
 import (
+	"bytes"
 	"encoding/json"
 	"os"
 	"sort"
@@ -13,17 +14,6 @@ import (
 )
 
 var _ = verifRegister("C53", streamC53)
-
-func a7Copy(nodes []*a7Node) []*a7Node {
-	var out []*a7Node
-	for _, n := range nodes {
-		c := *n
-		c.Content, c.Subtree = nil, nil
-		c.Kids = a7Copy(n.Kids)
-		out = append(out, &c)
-	}
-	return out
-}
 
 // c53Mutate derives the second snapshot's level from the first: most nodes stay, some are
 // removed, retyped (including directory <-> non-directory), get new content or new metadata,
@@ -76,6 +66,21 @@ func c53Mutate(g *a7Gen, nodes []*a7Node, depth int, rate int) []*a7Node {
 				if len(n.Parts[i]) > 0 {
 					c.Parts = append([][]byte(nil), n.Parts...)
 					c.Parts[i] = h.Bytes(len(n.Parts[i]))
+				}
+			}
+		case 5: // same set of blobs, different list: a blob repeated once more, or the order reversed
+			if n.Type == data.NodeTypeFile && len(n.Parts) > 0 {
+				c.Parts = append([][]byte(nil), n.Parts...)
+				if len(c.Parts) >= 2 && !bytes.Equal(c.Parts[0], c.Parts[len(c.Parts)-1]) && h.Bool() {
+					for a, b := 0, len(c.Parts)-1; a < b; a, b = a+1, b-1 {
+						c.Parts[a], c.Parts[b] = c.Parts[b], c.Parts[a]
+					}
+				} else {
+					c.Parts = append(c.Parts, c.Parts[h.Intn(len(c.Parts))])
+				}
+				c.Size = 0
+				for _, p := range c.Parts {
+					c.Size += uint64(len(p))
 				}
 			}
 		case 4: // metadata only
@@ -155,6 +160,7 @@ func streamC53(h *H) {
 		g.Hardlinks = h.Intn(4) == 0
 		g.MaxDepth = 1 + h.Intn(3)
 		g.MaxKids = 2 + h.Intn(5)
+		g.Clones = h.Intn(3) != 0
 		t1 := g.Tree()
 		var t2 []*a7Node
 		sub := "derived"
